@@ -1,0 +1,28 @@
+//go:build verif
+
+package db
+
+import (
+	"context"
+
+	"github.com/sourcenetwork/corekv"
+
+	"github.com/sourcenetwork/defradb/errors"
+	"github.com/sourcenetwork/defradb/event"
+)
+
+// VerifMerge is a synchronous equivalent of the merge goroutine in handleMessages.
+func (db *DB) VerifMerge(ctx context.Context, evt event.Merge) error {
+	col, err := getCollectionFromCollectionID(ctx, db, evt.CollectionID)
+	if err != nil {
+		return err
+	}
+	for i := 0; i < db.MaxTxnRetries(); i++ {
+		err = db.executeMerge(ctx, col, evt)
+		if errors.Is(err, corekv.ErrTxnConflict) {
+			continue
+		}
+		break
+	}
+	return err
+}
